@@ -101,6 +101,17 @@ def check_lift(spec, ctx):
     blocks, strand = [tuple(b) for b in spec["blocks"]], spec["strand"]
     variants = spec["variants"]
     cl = labels(ctx, spec, blocks, strand, variants)
+    if spec.get("chunk") and spec.get("chunk_strand") == "-":
+        # the chunk is the reverse complement of its window: the alternative sequence is the reverse complement of the edited window
+        # (one clause only; open finding F28 - variants on such chunks are applied as if the chunk were a forward one)
+        ctx.label("minus_chunk_parent")
+        pm = chunk_parent(g, spec["chunk"][0], spec["chunk"][1], strand="-")
+        win = g[spec["chunk"][0]:spec["chunk"][1]]
+        try:
+            ctx.eq("minus_chunk:collection_alternative_sequence", str(mkvc({"variants": variants}, pm).alternative_genomic_sequence), rm.revcomp(apply_edits(win, variants, offset=spec["chunk"][0])))
+        except Exception as e:
+            ctx.fail("minus_chunk:collection_alternative_sequence_raises", repr(e)[:120])
+        return
     parent, cs, refseq = parent_of(spec)
     # alternative sequence: literal substitution (single variant and collection), whole chromosome and chunk
     pre = spec.get("preused") if not spec.get("chunk") else None
@@ -460,6 +471,8 @@ def strat_lift(draw, tier="quick"):
         vhi = max(v["end"] for v in variants)
         sp["chunk"] = [draw(st.integers(0, min(lo, vlo))), draw(st.integers(max(hi, vhi), n))]
         sp["chunk_idiom"] = draw(st.sampled_from(["api", "api", "docstring"]))
+        if draw(st.integers(0, 7)) == 0:
+            sp["chunk_strand"] = "-"
     else:
         sp["preused"] = draw(st.sampled_from([None, None, "other_reference", "sequence_less"]))
         sp["anonymous_chromosome"] = draw(st.integers(0, 3)) == 0
@@ -648,5 +661,5 @@ PROP = Prop(
         "lift-over is claimed for variants wholly inside one block or wholly outside all blocks (as the property states)",
         "incorporation that deletes an interval entirely may be refused with EmptyLocationException (documented)",
     ],
-    predicates={"f14": pred_f14},
+    predicates={"f14": pred_f14, "minus_chunk": lambda spec, clause, detail: bool(spec.get("chunk")) and spec.get("chunk_strand") == "-"},
 )
